@@ -420,6 +420,19 @@ fn model_ops(case: &CaseInput, bytes: &[u8]) -> Result<ModelOps, String> {
     for (k, c) in rt.classes() {
         lines.push(format!("owner class {} {}", hx(k), join(c.methods.iter().map(|m| hx(&m.name)), " ")));
     }
+    for (k, fb) in rt.function_blocks() {
+        if let Some(base) = &fb.base {
+            let b = match base {
+                trust_runtime::eval::FunctionBlockBase::FunctionBlock(n) | trust_runtime::eval::FunctionBlockBase::Class(n) => n,
+            };
+            lines.push(format!("base {} {}", hx(k), hx(b)));
+        }
+    }
+    for (k, c) in rt.classes() {
+        if let Some(b) = &c.base {
+            lines.push(format!("base {} {}", hx(k), hx(b)));
+        }
+    }
     lines.push("pouindex".into());
     let rows: Vec<String> = index
         .entries
@@ -444,6 +457,26 @@ fn model_ops(case: &CaseInput, bytes: &[u8]) -> Result<ModelOps, String> {
         })
         .collect();
     lines.push(format!("impl {}", rows.join(",")));
+    // method tables (vtables) of all class-like POUs, in index order
+    lines.push("vtables".into());
+    let name_of = |idx: u32| strings.get(idx as usize).map(|s| s.to_ascii_uppercase()).unwrap_or_else(|| "<bad name_idx>".into());
+    let tables: Vec<String> = index
+        .entries
+        .iter()
+        .filter_map(|e| e.class_meta.as_ref().map(|m| (e, m)))
+        .map(|(e, m)| {
+            format!(
+                "{}={}",
+                hx(&name_of(e.name_idx)),
+                m.methods
+                    .iter()
+                    .map(|me| format!("{}:{}:{}", hx(&name_of(me.name_idx)), me.pou_id, me.vtable_slot))
+                    .collect::<Vec<_>>()
+                    .join(";")
+            )
+        })
+        .collect();
+    lines.push(format!("impl {}", tables.join(",")));
     lines.push(format!("strtab {}", join(strings.iter().map(|s| hx(s)), " ")));
     lines.push(format!("impl {}", strings.len()));
     Ok(ModelOps { lines, strings: strings.len(), pous: index.entries.len() })
